@@ -450,11 +450,12 @@ def has_big_int(x):
 def scale_raw(val, shift):
     """
     Returns the raw (integer) value(s) `val` multiplied by 2**shift.
-    Python integers are used when the scaled value(s) would not fit in 63 bits, avoiding a silent wrap of int64/uint64 arrays.
+    Python integers are used when the factor or the scaled value(s) would not fit in 63 bits, avoiding a silent wrap
+    (or an OverflowError for the factor) on int64/uint64 arrays.
     """
     if shift > 0 and isinstance(val, (np.ndarray, np.generic)) and val.dtype != object and val.size > 0 \
         and np.issubdtype(val.dtype, np.integer):
-        if max(abs(int(np.max(val))), abs(int(np.min(val)))) << shift >= (1 << 63):
+        if shift >= 63 or max(abs(int(np.max(val))), abs(int(np.min(val)))) << shift >= (1 << 63):
             val = np.asarray(val).astype(object)
     return val * 2**shift
 
